@@ -75,6 +75,9 @@ type Exec struct {
 	Horizon    time.Duration
 	Leaked     []string
 	MarkIdx    int // choices before this index are not branched on (see Mark)
+	// DefaultTaken counts, per select label, how often an instrumented select
+	// with a default clause found no communication ready after the mark.
+	DefaultTaken map[string]int
 }
 
 // Mark declares that the interesting phase of the scenario starts now: the
@@ -463,6 +466,14 @@ func Select(label string, hasDefault bool, cases ...Case) *Sel {
 	// (all channels nil); without one it blocks on the real channels.
 	if hasDefault {
 		s.chosen = -2
+		x.mu.Lock()
+		if x.MarkIdx > 0 {
+			if x.DefaultTaken == nil {
+				x.DefaultTaken = map[string]int{}
+			}
+			x.DefaultTaken[label]++
+		}
+		x.mu.Unlock()
 	}
 	return s
 }
